@@ -392,6 +392,14 @@ func checkC02Layout(c *Check, p *Program) {
 			// decoders of another shape are decided elsewhere (byte-copy rule below, C11.decode, the dispatcher rules);
 			// the list is fixed: a decoder that loses its UnpackSome call does not silently join it
 			if !otherShapeDecoder[tn] {
+				// a hand-written field-by-field decoder: both directions interpreted, the encoder's octets fed to the decoder
+				if okR, und, detail := roundTripByInterpretation(p, pt.nt, pt.pack, un); okR {
+					c.OK(rule, tn+" decoder inverts the encoder (both interpreted)", p.Pos(un.Pos()), detail)
+					continue
+				} else if !und {
+					c.Fail(rule, tn+" decoder inverts the encoder (both interpreted)", p.Pos(un.Pos()), detail)
+					continue
+				}
 				c.Fail(rule, tn+" decoder has the item-list shape", p.Pos(un.Pos()), "the decoder of this type is no longer one util.UnpackSome over its input ("+why+") and is not one of the decoders judged by another rule: its agreement with the encoder is undecided")
 			}
 			continue
@@ -772,7 +780,11 @@ func checkC02Layout(c *Check, p *Program) {
 					if !anyFact(fs, func(f Cmp) bool {
 						lx, isLx := stripAllConv(f.X).(*ssa.Call)
 						ly, isLy := stripAllConv(f.Y).(*ssa.Call)
-						return isLx && isLy && builtinName(lx) == "len" && builtinName(ly) == "len" && lx.Common().Args[0] == e && ly.Common().Args[0] == ssa.Value(in) && (f.Op == token.GEQ || f.Op == token.GTR)
+						if !isLx || !isLy || builtinName(lx) != "len" || builtinName(ly) != "len" {
+							return false
+						}
+						ox, oy := lx.Common().Args[0], ly.Common().Args[0]
+						return (ox == e && oy == ssa.Value(in) && (f.Op == token.GEQ || f.Op == token.GTR)) || (ox == ssa.Value(in) && oy == e && (f.Op == token.LEQ || f.Op == token.LSS))
 					}) {
 						room = false
 					}
